@@ -302,6 +302,9 @@ func cmdCheck(args []string) int {
 	}
 	// 4. verdicts
 	code := rep.verdicts()
+	if rep.structFail && code == 0 {
+		code = 1
+	}
 	rep.wall = time.Since(start).Seconds()
 	if onlyRe == nil {
 		if err := rep.writeEvidence(); err != nil {
@@ -338,6 +341,7 @@ type report struct {
 	engineErr    []string
 	selftest     map[string]any
 	notUnder     []string
+	structFail   bool
 }
 
 func (r *report) loadKnown() {
@@ -594,6 +598,8 @@ func (e *Engine) scanAssumptions() []string {
 
 func (r *report) runSpecial(name string) {
 	switch name {
+	case "next-skeleton":
+		r.nextSkeleton()
 	default:
 		r.extraNotes = append(r.extraNotes, "unknown special analysis "+name)
 	}
